@@ -1,0 +1,25 @@
+//go:build verif
+
+// Contracts for the deductive verification in /verif (govc). This file contains
+// comments only; it is compiled only with -tags verif and declares nothing.
+
+package crl
+
+//@ pred revoked(cl) = cl.TBSCertList.RevokedCertificates
+
+// CheckCRLForCert (RFC 5280, 5.1 and 5.3): the result describes the CRL (signature value,
+// version, update times, issuer copied) and says whether the certificate's serial number is
+// among the revoked entries (linear search when no cache is given; the cache maps the
+// decimal serial to the entry).
+//@ func CheckCRLForCert
+//@   uses perreturn
+//@   requires certList != nil && cert != nil && cert.SerialNumber != nil
+//@   requires forall(i, 0, len(revoked(certList)), revoked(certList)[i].SerialNumber != nil)
+//@   requires forallv(k, string, has(cache, k) ==> cache[k] != nil)
+//@   ensures [fresh]   result1 == nil && result0 != nil && fresh(result0)
+//@   ensures [copied]  same(result0.CRLSignatureValue, certList.SignatureValue.Bytes) && result0.Version == certList.TBSCertList.Version && same(result0.ThisUpdate, certList.TBSCertList.ThisUpdate) && same(result0.NextUpdate, certList.TBSCertList.NextUpdate) && same(result0.Issuer.OriginalRDNS, certList.TBSCertList.Issuer)
+//@   ensures [empty]   cache == nil && len(revoked(certList)) == 0 ==> !result0.IsRevoked
+//@   ensures [time]    cache == nil && result0.IsRevoked ==> exists(i, 0, len(revoked(certList)), same(result0.RevocationTime, revoked(certList)[i].RevocationTime))
+//@   ensures [cached]  cache != nil && result0.IsRevoked ==> !forallv(k, string, !(has(cache, k) && same(result0.RevocationTime, cache[k].RevocationTime)))
+//@   ensures [nocache] cache != nil && forallv(k, string, !has(cache, k)) ==> !result0.IsRevoked
+//@   terminates
